@@ -338,8 +338,14 @@ func dischargeAll(obls []*Obligation, dir string, timeoutMs, workers int, thorou
 			}
 		}()
 	}
+	// one path instance per obligation name (the instances of one name share the clause and differ in the path)
+	seen := map[string]int{}
 	for _, o := range all0 {
 		if o.Expect == "unsat" && o.Status == "unsat" && o.Solver != "trivial" && (o.Prefix != "" || o.Script != "") {
+			if seen[o.Name] >= 2 {
+				continue
+			}
+			seen[o.Name]++
 			ch2 <- o
 		}
 	}
